@@ -36,21 +36,22 @@ _VAR = re.compile(r"^/\\ ([A-Za-z_][A-Za-z0-9_]*) = ", re.M)
 WANTED = ("pat", "w", "out", "txt")
 
 
-def _parse_blocks(blocks):
+def _parse_blocks(arg):
+    wanted, blocks = arg
     out = []
     for block in blocks:
         ms = list(_VAR.finditer(block))
         st = {}
         for j, m in enumerate(ms):
-            if m.group(1) in WANTED:
+            if m.group(1) in wanted:
                 end = ms[j + 1].start() if j + 1 < len(ms) else len(block)
                 st[m.group(1)] = tlaval.parse(block[m.end() : end])
         out.append(st)
     return out
 
 
-def load_states(dump_path):
-    """-> {pattern key: {"pat": ast, "txt": {...}, "table": {w tuple: out}}} (parsed in parallel)"""
+def parse_dump(dump_path, wanted):
+    """states of a TLC dump, only the variables in `wanted` parsed (in parallel when the dump is large)"""
     with open(dump_path) as f:
         text = f.read()
     hdrs = list(_HDR.finditer(text))
@@ -58,17 +59,25 @@ def load_states(dump_path):
     for j, h in enumerate(hdrs):
         end = hdrs[j + 1].start() if j + 1 < len(hdrs) else len(text)
         blocks.append(text[h.end() : end])
-    n = 400
-    chunks = [blocks[i : i + n] for i in range(0, len(blocks), n)]
+    if len(blocks) <= 60000:
+        return _parse_blocks((wanted, blocks))
+    n = 2000
+    chunks = [(wanted, blocks[i : i + n]) for i in range(0, len(blocks), n)]
+    out = []
+    for states in common.pmap(_parse_blocks, chunks, chunksize=1):
+        out += states
+    return out
+
+
+def load_states(dump_path):
+    """-> {pattern key: {"pat": ast, "txt": {...}, "table": {w tuple: out}}}"""
     pats = {}
-    parsed = common.pmap(_parse_blocks, chunks, chunksize=1) if len(blocks) > 60000 else [_parse_blocks(blocks)]
-    for states in parsed:
-        for st in states:
-            key = repr(st["pat"])
-            p = pats.setdefault(key, {"pat": tlaval.to_jsonable(st["pat"]), "table": {}, "txt": None})
-            p["table"][tuple(st["w"])] = _out(st["out"])
-            if len(st["w"]) == 0:
-                p["txt"] = tlaval.to_jsonable(st["txt"])
+    for st in parse_dump(dump_path, WANTED):
+        key = repr(st["pat"])
+        p = pats.setdefault(key, {"pat": tlaval.to_jsonable(st["pat"]), "table": {}, "txt": None})
+        p["table"][tuple(st["w"])] = _out(st["out"])
+        if len(st["w"]) == 0:
+            p["txt"] = tlaval.to_jsonable(st["txt"])
     return pats
 
 
